@@ -92,7 +92,7 @@ func TestVerifC03(t *testing.T) {
 	}
 	r := verifkit.Start(t, "C03", "agg")
 	defer r.Finish()
-	c03Run(t, r, r.N(1, 4), r.N(200, 1200), r.N(20, 24))
+	c03Run(t, r, r.N(1, 4), r.N(200, 500), r.N(20, 24))
 }
 
 // TestVerifC03Race (unit "agg-race", built with -race): the same workload and oracle at a smaller
@@ -103,7 +103,7 @@ func TestVerifC03Race(t *testing.T) {
 	}
 	r := verifkit.Start(t, "C03", "agg-race")
 	defer r.Finish()
-	c03Run(t, r, r.N(1, 2), r.N(60, 250), r.N(12, 20))
+	c03Run(t, r, 1, r.N(60, 100), 12)
 }
 
 func c03Run(t *testing.T, r *verifkit.Run, rounds, nKeys, nHosts int) {
@@ -304,7 +304,7 @@ func c03Round(r *verifkit.Run, inst *c03Instance, round int, nHosts int) {
 		wg.Add(1)
 		go func(i int) {
 			defer wg.Done()
-			sents[i].Result = inst.Engine.SendArgs(plans[i].cl, argss[i], 60*time.Second)
+			sents[i].Result = inst.Engine.SendArgs(plans[i].cl, argss[i], 150*time.Second)
 			argss[i] = tlstatshouse.SendSourceBucket3{}
 		}(i)
 	}
